@@ -74,7 +74,7 @@ class C33(Check):
             # (no 'async with' task in front of a burst with cancellations: cancelling a task only takes effect when the loop runs)
             syncmodel.burst_family(spec, [o for o in OPS if o[0] != "acq_ctx"],
                                    [("acq", None), ("rel",), ("acq", "zero"), ("acq", "td"), ("cancel", 0), ("cancel", -1)],
-                                   5 if tier == "quick" else 7, st)
+                                   5 if tier == "quick" else 6, st)
             return
         syncmodel.bfs(spec, OPS, [OPS[i]], self.depth(tier), st)
         st.setmax("depth", self.depth(tier))
